@@ -49,6 +49,11 @@ func Order(t *rapid.T, n int) []int {
 
 // Sources returns the set's texts in the given order (nil: model order).
 func Sources(set *ymodel.Set, order []int) []ymodel.Source {
+	if len(set.Extra) > 0 {
+		set2 := *set
+		set2.Extra = nil
+		return append(Sources(&set2, order), set.Extra...)
+	}
 	if o := set.OlderText(); o != nil {
 		// the order is one of the modules of the set; the older revision comes first or last
 		set2 := *set
